@@ -19,6 +19,7 @@ mod c12;
 mod c10;
 mod c13;
 mod c20;
+mod c19;
 
 use out::Out;
 
@@ -71,6 +72,9 @@ fn main() {
                 "c13" => c13::run(&args, &mut out),
                 "c13-repro" => c13::repro(&args, &mut out),
                 "c20" => c20::run(&args, &mut out),
+                "c19" => c19::run(&args, &mut out),
+                "c19h" => c19::run_histories(&args, &mut out),
+                "c19cli" => c19::run_cli(&args, &mut out),
                 s => { eprintln!("unknown stream {s}"); std::process::exit(2); }
             }
             out.write(&args.out);
